@@ -169,7 +169,7 @@ def run_one(name, apply):
 def main():
     flt = sys.argv[1:]
     for name, edits in TABLE.items():
-        if flt and not any(x in name for x in flt):
+        if flt and not any(name.startswith(x) for x in flt):
             continue
         if isinstance(edits, tuple):
             edits = [edits]
@@ -185,7 +185,7 @@ def main():
         run_one(name, apply)
     for patch in sorted(glob.glob(os.path.join(VERIF, "dev", "equiv", "*.diff"))):
         name = os.path.basename(patch)[:-5]
-        if flt and not any(x in name for x in flt):
+        if flt and not any(name.startswith(x) for x in flt):
             continue
 
         def apply(root, patch=patch):
